@@ -5,6 +5,7 @@ package props
 import (
 	"fmt"
 	"sort"
+	"strconv"
 	"strings"
 	"testing"
 
@@ -21,6 +22,8 @@ type MultiCase struct {
 	Rounds [][]vrun.RunSpec `json:"rounds"`
 	// RunScripts: run id -> outcome overrides by original key
 	RePrepare bool `json:"re_prepare"`
+	// SharedParsed: all preparations come from one parsed object and one executor
+	SharedParsed bool `json:"shared_parsed,omitempty"`
 	// Plan: schedule points held while the runs overlap (evaluation of one run stretched across another)
 	Plan vsched.Plan `json:"plan,omitempty"`
 }
@@ -55,14 +58,36 @@ func genMultiCase(rt *rapid.T) *MultiCase {
 		c.Script.Steps = map[string]vplug.Behaviour{"ma": {Outcome: "success"}, "mb": {Outcome: "success"}, "mc": {Outcome: "success"}}
 		c.Script.Deploys = map[string]vplug.DeployBehaviour{}
 	}
+	loopMotif := !oneofMotif && rapid.IntRange(0, 7).Draw(rt, "loop-motif?") == 0
+	if loopMotif {
+		// a loop whose parallelism is the run's input: every run has its own bound, whatever the
+		// bounds of the runs before it or next to it
+		items := &vcase.Val{K: "list"}
+		base := map[string]vplug.Behaviour{}
+		for j := 0; j < 4; j++ {
+			k := fmt.Sprintf("loop#%d", j)
+			items.Vals = append(items.Vals, vcase.MapVal([]string{"k", "n"}, []*vcase.Val{vcase.LitVal(vcase.StrLit(k)), vcase.LitVal(vcase.IntLit(int64(j)))}))
+			base[k] = vplug.Behaviour{Outcome: "success"}
+		}
+		w := &vcase.Step{ID: "w", Kind: "plugin", Op: "op", Src: "vp://loop_w", Input: vcase.MapVal([]string{"key", "a"}, []*vcase.Val{vcase.ExprVal(&vcase.Expr{K: "in", Field: "k"}), vcase.ExprVal(&vcase.Expr{K: "in", Field: "n"})})}
+		sub := &vcase.Program{Input: []vcase.InField{{Name: "k", Type: "string", Required: true}, {Name: "n", Type: "int", Required: true}}, Steps: []*vcase.Step{w},
+			Outputs: []*vcase.Output{{ID: "success", Val: vcase.MapVal([]string{"r"}, []*vcase.Val{vcase.ExprVal(&vcase.Expr{K: "out", Step: "w", Stage: "outputs", Output: "success", Path: []string{"v"}})})}}}
+		c = &vcase.Case{Prop: "C14", Profile: "motif:loop-parallelism-from-the-input", Subs: map[string]*vcase.Program{"sub.yaml": sub},
+			InputDoc: map[string]any{"i": int64(2)}, Labels: []string{"motif:loop-parallelism-from-the-input"},
+			Main: &vcase.Program{Input: []vcase.InField{{Name: "i", Type: "int", Required: true}},
+				Steps:   []*vcase.Step{{ID: "loop", Kind: "foreach", Workflow: "sub.yaml", Items: items, Parallelism: vcase.ExprVal(&vcase.Expr{K: "in", Field: "i"})}},
+				Outputs: []*vcase.Output{{ID: "success", Val: vcase.MapVal([]string{"r"}, []*vcase.Val{vcase.ExprVal(&vcase.Expr{K: "out", Step: "loop", Stage: "outputs", Output: "success"})})}}}}
+		c.Script.Steps = base
+		c.Script.Deploys = map[string]vplug.DeployBehaviour{}
+	}
 	// in a quarter of the cases the first output carries a field that evaluates for some inputs only
-	if _, hasI := c.InputDoc["i"]; hasI && len(c.Main.Outputs) > 0 && c.Main.Outputs[0].Val.K == "map" && rapid.IntRange(0, 3).Draw(rt, "output-fault-motif?") == 0 {
+	if _, hasI := c.InputDoc["i"]; hasI && !loopMotif && len(c.Main.Outputs) > 0 && c.Main.Outputs[0].Val.K == "map" && rapid.IntRange(0, 3).Draw(rt, "output-fault-motif?") == 0 {
 		c.Main.Outputs[0].Val.Set("zdiv", vcase.ExprVal(&vcase.Expr{K: "bin", Op: "/", Args: []*vcase.Expr{{K: "lit", Lit: vcase.IntLit(100)}, {K: "in", Field: "i"}}}))
 		c.Labels = append(c.Labels, "motif:output-field-divides-by-the-input")
 	}
 	baseScript := c.Script
 	vcase.Multiplex(c.Main, c.Subs)
-	mc := &MultiCase{Base: c, RePrepare: rapid.Bool().Draw(rt, "re-prepare")}
+	mc := &MultiCase{Base: c, RePrepare: rapid.Bool().Draw(rt, "re-prepare"), SharedParsed: rapid.IntRange(0, 2).Draw(rt, "shared-parsed") == 0}
 	c.Script = vplug.Script{Steps: map[string]vplug.Behaviour{}, Deploys: baseScript.Deploys}
 	nRounds := rapid.IntRange(1, 4).Draw(rt, "rounds")
 	runNo := 0
@@ -126,6 +151,13 @@ func genMultiCase(rt *rapid.T) *MultiCase {
 				b.DelayMs = rapid.IntRange(0, 15).Draw(rt, id+"."+key+".delay")
 				c.Script.Steps[id+"/"+key] = b
 			}
+			if loopMotif {
+				spec.CancelAfterMs = 0
+				in["i"] = rapid.Int64Range(1, 4).Draw(rt, id+".parallelism")
+				for j := 0; j < 4; j++ {
+					c.Script.Steps[fmt.Sprintf("%s/loop#%d", id, j)] = vplug.Behaviour{Outcome: "success", DelayMs: rapid.IntRange(15, 30).Draw(rt, fmt.Sprintf("%s.item%d.delay", id, j))}
+				}
+			}
 			if oneofMotif {
 				spec.CancelAfterMs = 0
 				if rapid.Bool().Draw(rt, id+".via-ob") {
@@ -179,7 +211,7 @@ func filterLog(ans *vrun.MultiAnswer, rk string) *vrun.Answer {
 
 func checkMultiCase(st *Stats, mc *MultiCase) string {
 	c := mc.Base
-	req := &vrun.MultiRequest{Main: vcase.RenderYAML(c.Main), Files: map[string]string{}, Script: c.Script, Rounds: mc.Rounds, RePrepareBetween: mc.RePrepare, WatchdogMs: 40000, Plan: mc.Plan}
+	req := &vrun.MultiRequest{Main: vcase.RenderYAML(c.Main), Files: map[string]string{}, Script: c.Script, Rounds: mc.Rounds, RePrepareBetween: mc.RePrepare, SharedParsed: mc.SharedParsed, WatchdogMs: 40000, Plan: mc.Plan}
 	for name, p := range c.Subs {
 		req.Files[name] = vcase.RenderYAML(p)
 	}
@@ -222,7 +254,29 @@ func checkMultiCase(st *Stats, mc *MultiCase) string {
 		}
 	}
 	nRuns := len(spans)
-	st.Record(mc, overlap || afterFailure, []string{fmt.Sprintf("runs:%d", min(nRuns, 8)), fmt.Sprintf("overlap:%v", overlap), fmt.Sprintf("after-failure:%v", afterFailure), fmt.Sprintf("re-prepare:%v", mc.RePrepare)})
+	st.Record(mc, overlap || afterFailure, []string{fmt.Sprintf("runs:%d", min(nRuns, 8)), fmt.Sprintf("overlap:%v", overlap), fmt.Sprintf("after-failure:%v", afterFailure), fmt.Sprintf("re-prepare:%v", mc.RePrepare), fmt.Sprintf("one-parsed-object:%v", mc.SharedParsed)})
+	if c.Profile == "motif:loop-parallelism-from-the-input" {
+		// event "conc" with key "<run>/loop#<n>": n items of that run's loop executed at the same time
+		bound := map[string]int64{}
+		for _, round := range mc.Rounds {
+			for _, spec := range round {
+				bound[spec.ID], _ = spec.Input.(map[string]any)["i"].(int64)
+			}
+		}
+		for _, e := range ans.Log {
+			if e.Kind != "conc" {
+				continue
+			}
+			i, k := strings.Index(e.Key, "/loop#"), strings.LastIndexByte(e.Key, '#')
+			if i < 0 {
+				continue
+			}
+			n, _ := strconv.Atoi(e.Key[k+1:])
+			if b, ok := bound[e.Key[:i]]; ok && b > 0 && int64(n) > b {
+				return fmt.Sprintf("run %s executed %d items of its loop at the same time although its parallelism is %d (other runs of the prepared workflow had other bounds)", e.Key[:i], n, b)
+			}
+		}
+	}
 	for ri, round := range ans.Rounds {
 		for j, r := range round {
 			spec := mc.Rounds[ri][j]
